@@ -31,9 +31,9 @@ Inductive expr :=
 | EMsg (e : expr)                              (* e->getMessage() *)
 | EClass (e : expr)                            (* get_class(e) *)
 | ESame (a b : expr)                           (* a === b *)
-| EPanic                                       (* an expression whose evaluation fails inside the Go
-                                                  runtime (1 << -1): TryStatement's guard turns the panic
-                                                  into a catchable internal error *)
+| EPanic                                       (* a call whose Go body panics (the check registers such a
+                                                  built-in): TryStatement's guard turns the panic into a
+                                                  catchable internal error *)
 with args := ANil | ACons (e : expr) (r : args).
 
 (* statements; blocks are SSeq/SSkip trees *)
@@ -160,6 +160,7 @@ Definition binop (o : bop) (a b : value) : value :=
 Definition same_value (a b : value) : bool :=
   match a, b with
   | VObj i _ _, VObj j _ _ => Nat.eqb i j
+  | VErr m, VErr m' => String.eqb m m'        (* isStrictEqual falls back to the string forms *)
   | _, _ => scalar_eqb a b
   end.
 (* $e->getMessage() and get_class($e) of a caught exception *)
